@@ -174,14 +174,8 @@ def FrameStream_Read : List String := [
   "continue",
   "end",
   "switch frameType",
-  "case FrameTypeEOF",
-  "s.readEOF = true",
-  "return 0, io.EOF",
-  "case FrameTypeClose",
-  "s.readEOF = true",
-  "return 0, io.EOF",
-  "end",
-  "if IsControlFrame(frameType) || len(data) == 0",
+  "case FrameTypeData",
+  "if len(data) == 0",
   "continue",
   "end",
   "s.readBuf = data",
@@ -193,6 +187,15 @@ def FrameStream_Read : List String := [
   "s.readOff = 0",
   "end",
   "return n, nil",
+  "case FrameTypeEOF",
+  "s.readEOF = true",
+  "return 0, io.EOF",
+  "case FrameTypeClose",
+  "s.readEOF = true",
+  "return 0, io.EOF",
+  "default",
+  "continue",
+  "end",
   "end"
 ]
 def FrameStream_Write : List String := [
